@@ -481,8 +481,9 @@ class Runner:
                 sc_q = summ.get("scale_q")
                 self.o("position", "count", None, MR.to_frame_a(pos, self.mir))
                 self.o("liquidity", "liq", "liq", liq, meta={"range": MR.to_frame_a(pos, self.mir), "tick": kw_tick_a if op == "add_tick" and kw else pair.price_tick[bar]})
-                self.o("base_used", "amt", "base", used_b, scale=None if sc_q is None else sc_q / P)
-                self.o("quote_used", "amt", "quote", used_q, scale=sc_q)
+                rmeta = {"range": MR.to_frame_a(pos, self.mir)}
+                self.o("base_used", "amt", "base", used_b, scale=None if sc_q is None else sc_q / P, meta=rmeta)
+                self.o("quote_used", "amt", "quote", used_q, scale=sc_q, meta=rmeta)
                 summ["nz"] = liq != 0
         elif op in ("remove", "collect"):
             if not self.positions:
@@ -616,6 +617,82 @@ def run_one(pair, mirrored, steps):
     return runner
 
 
+
+# =============================================================================== listed finding: float decimal factor
+FF_SITE = "float-decimal-factor/price-within-a-tick-of-a-range-bound"
+LN_1P0001 = Fraction(99995000333, 10**15)  # ln(1.0001)
+
+
+def float_factor_delta(dq, db):
+    """Relative error of the factor 10 ** (d0 - d1) demeter's price helpers build as a Python float when d0 < d1
+    (Decimal(10 ** -12) is 9.99999999999999979886...e-13): one of the two orientations of a pair with different
+    decimals carries it, the other one is exact, so the same Decimal price is read as sqrt prices delta/2 apart."""
+    k = abs(int(dq) - int(db))
+    if k == 0:
+        return Fraction(0)
+    return abs(Fraction(10.0 ** -k) * 10**k - 1)
+
+
+def float_factor_bound(pair, bar, ranges):
+    """Largest relative deviation the float factor explains for a figure of a position whose price sits at
+    price_tick[bar] + off[bar] (A's frame), next to the bounds of `ranges`: the two orientations see sqrt prices
+    delta/2 apart, a liquidity or amount bound by the vanishing token is (offer / distance to the bound), so it
+    moves by (delta/2) / (relative sqrt distance) = delta / (distance in ticks x ln 1.0001).  None when the price is not
+    strictly inside a tick next to one of those bounds."""
+    delta = float_factor_delta(pair.dq, pair.db)
+    if delta == 0 or not pair.price_mode.endswith("off-tick") or not (0 <= bar < len(pair.off)) or not pair.off[bar]:
+        return None
+    x = Fraction(pair.price_tick[bar]) + Fraction(pair.off[bar])
+    dist = min((abs(x - b) for r in ranges for b in r), default=None)
+    if dist is None or dist == 0 or dist >= 1:
+        return None
+    return delta / (dist * LN_1P0001)
+
+
+def float_factor_probe(mon):
+    """The listed finding, reproduced on purpose once per run (shard 0): one pool pair with different decimals, one
+    bar whose price sits 0.02 tick under the upper bound of a range, a deposit bound by the vanishing token."""
+    from datetime import datetime
+    from decimal import Context
+
+    from demeter import Broker, MarketInfo, MarketTypeEnum, TokenInfo
+    from demeter.uniswap import UniLpMarket, UniswapMarketStatus, UniV3Pool, UniV3PoolStatus
+
+    q, b = TokenInfo("ffq", 18), TokenInfo("ffb", 6)
+    lo, up, f = -211730, -211700, Fraction(98, 100)
+    c = Context(prec=60)
+    t = Decimal(-211701) + Decimal(f.numerator) / Decimal(f.denominator)
+    price = Context(prec=30).plus(c.divide(Decimal(1), c.multiply(c.power(Decimal("1.0001"), t), Decimal(10) ** 12)))
+    liq = []
+    for mirror in (False, True):
+        pool = UniV3Pool(b, q, 0.05, q) if mirror else UniV3Pool(q, b, 0.05, q)
+        m = UniLpMarket(MarketInfo("uni", MarketTypeEnum.uniswap_v3), pool)
+        br = Broker()
+        br.add_market(m)
+        br.set_balance(q, Decimal(10) ** 9)
+        br.set_balance(b, Decimal(10) ** 9)
+        st = UniV3PoolStatus(price=price, currentLiquidity=10**18, inAmount0=0, inAmount1=0, closeTick=0)
+        m.set_market_status(UniswapMarketStatus(datetime(2024, 1, 1), st), None)
+        r = Dr.call_op(m.add_liquidity_by_tick, *((-up, -lo) if mirror else (lo, up)), Decimal(10) ** 8, Decimal("0.0001"))
+        if not r.ok:
+            mon.violation("uniswap", "add_liquidity_by_tick", "raises", f"float-factor-probe/{type(r.exc).__name__}", repr(r.exc))
+            return
+        liq.append(Fraction(int(r.ret[3])))
+    mon.ev()
+    mon.hit("float-factor-probe")
+    rel = abs(liq[0] - liq[1]) / max(liq)
+    bound = float_factor_delta(18, 6) / ((1 - f) * LN_1P0001)
+    mon.note("float_factor_probe", {"liquidity_A": int(liq[0]), "liquidity_mirror": int(liq[1]), "relative_difference": float(rel),
+                                    "explained_by_float_factor_up_to": float(bound)})
+    if rel > MR.EXACT:
+        site = FF_SITE if rel <= 2 * bound else "probe/beyond-what-the-float-factor-explains"
+        mon.violation(
+            "uniswap", "add_liquidity_by_tick", "liquidity/exact", site,
+            f"probe: decimals 18/6, range ({lo},{up}), price {price} = 0.02 tick under the upper bound, offers 1e8 base / 0.0001 quote: "
+            f"liquidity A {int(liq[0])} vs mirror {int(liq[1])}, relative difference {float(rel):.3e} (float factor explains up to {float(bound):.3e})",
+        )
+
+
 # =============================================================================== comparison
 def _site_for(oa, om, diag):
     site = oa.site
@@ -644,6 +721,7 @@ def compare(mon, pair, ra, rm, case_no, sticky_possible):
               "pending-base": Fraction(0), "pending-quote": Fraction(0)}
     first_value_op = None
     diag = {}
+    seen_ranges = set()
     bad_step = None
     worst = {"exact": Fraction(0), "estimate": Fraction(0)}
     nz_steps = set()
@@ -679,6 +757,8 @@ def compare(mon, pair, ra, rm, case_no, sticky_possible):
             mon.cls(f"diag/{oa.op}/{oa.field}/" + ("same" if oa.value == om.value else "differs"))
             continue
         mon.ev()
+        if oa.meta and "range" in oa.meta:
+            seen_ranges.add(tuple(oa.meta["range"]))
         if oa.kind in ("ok", "count"):
             va, vm = oa.value, om.value
             if oa.field == "actions" and va != vm:
@@ -768,8 +848,17 @@ def compare(mon, pair, ra, rm, case_no, sticky_possible):
         if a != 0 or b != 0:
             nz_steps.add(step_id)
         if not ok:
+            site = _site_for(oa, om, diag)
+            bar_s = oa.label.split("/")[0]
+            if not est and bar_s.isdigit():
+                # the one listed finding (known_findings.jsonl): the same Decimal price is read as sqrt prices 1e-17 apart by
+                # the two orientations (float factor 10 ** (d0 - d1)), amplified by 1 / distance next to a range bound
+                rs = [oa.meta["range"]] if oa.meta and "range" in oa.meta else sorted(seen_ranges)
+                ff = float_factor_bound(pair, int(bar_s), rs)
+                if ff is not None and r <= 2 * ff + tol + quantum:
+                    site = FF_SITE
             mon.violation(
-                "uniswap", oa.op, f"{oa.field}/{cname}", _site_for(oa, om, diag),
+                "uniswap", oa.op, f"{oa.field}/{cname}", site,
                 f"{oa.label}: A {float(a)!r} vs mirror {float(b)!r} (base/quote terms), relative difference {float(r):.3e} > "
                 f"{float(tol + quantum):.3e} (scale {None if scale is None else float(scale)!r}); dec quote/base {pair.dq}/{pair.db}, fee {pair.fee}, "
                 f"price tick(A) {pair.price_tick[int(oa.label.split('/')[0])] if oa.label.split('/')[0].isdigit() else '?'}",
@@ -787,6 +876,8 @@ def compare(mon, pair, ra, rm, case_no, sticky_possible):
 
 # =============================================================================== driver
 def run(spec, mon):
+    if spec.get("shard") == 0 and mon.want("float-factor-probe"):
+        float_factor_probe(mon)
     for c in range(spec["cases"]):
         rng = mon.case_rng(c)
         if not mon.want(c):
